@@ -125,6 +125,7 @@ pub fn run_app(
             opt.dark,
             opt.light,
             opt.computed.color_mode,
+            opt.no_gitconfig,
         ))
     } else if opt.show_colors {
         Some(subcommands::show_colors::show_colors())
